@@ -9,6 +9,23 @@ Open Scope string_scope.
 Module PR.
 Import PL.
 
+(* ---- the binary64 instance of the weight interface (execution only) *)
+(* serde_json: Value::from(u64/i64) as f64 is the correctly rounded conversion *)
+Definition float_of_Z (z : Z) : float :=
+  match z with
+  | Z0 => PrimFloat.zero
+  | Zpos p => SF2Prim (binary_normalize 53 1024 (Zpos p) 0 false)
+  | Zneg p => PrimFloat.opp (SF2Prim (binary_normalize 53 1024 (Zpos p) 0 false))
+  end.
+Definition as_f64 (j : json) : option float :=
+  match j with JInt z => Some (float_of_Z z) | JFloat f => Some f | _ => None end.
+Definition is_nan (f : float) : bool := negb (PrimFloat.eqb f f).
+Definition of_lt (a b : float) : bool :=
+  if is_nan a then false else if is_nan b then true else PrimFloat.ltb a b.
+Definition fw : wops :=
+  {| wt := float; w_zero := PrimFloat.zero; w_one := PrimFloat.one; w_add := PrimFloat.add;
+     w_lt := of_lt; w_of_json := as_f64; w_to_json := JFloat |}.
+
 (* ---- canonical text of an outcome: "Ok n | cls:request;cls:request;..." | Err | Panic | Hang *)
 Definition resp_class (r : json) : string :=
   match r with
@@ -48,7 +65,7 @@ Definition plugin_of (p : pspec) : plugin :=
   match p with
   | PGrid => grid_search
   | PInject k v o => inject k v o
-  | PLbNumeric c => lb_numeric c
+  | PLbNumeric c => lb_numeric fw c
   | POracle t => fun q => match lookup (show_sorted q) t with
                           | Some (q', true) => PDone q'
                           | Some (q', false) => PFail q' "oracle"
@@ -68,14 +85,14 @@ Definition search_of (t : list (string * bool)) : json -> res unit := fun q =>
   end.
 
 Definition model_outcome (c : cfg) (stbl : list (string * bool)) (user : json) : res (list json) :=
-  run_user unit (map plugin_of (c_plugins c)) (search_of stbl) [] (fun r => Ok r)
+  run_user fw unit (map plugin_of (c_plugins c)) (search_of stbl) [] (fun r => Ok r)
            (c_par_app c) (c_par_run c) (c_persist c) user.
 Definition line_M (id : Z) (c : cfg) (stbl : list (string * bool)) (user : json) : string :=
   line "M" id (show_outcome (model_outcome c stbl user)).
 (* responses discarded from memory: the class of a search is not observable, every search is taken
    to succeed (only input-stage error responses are returned either way) *)
 Definition line_M_blind (id : Z) (c : cfg) (user : json) : string :=
-  line "M" id (show_outcome (run_user unit (map plugin_of (c_plugins c)) (fun _ => Ok tt) [] (fun r => Ok r)
+  line "M" id (show_outcome (run_user fw unit (map plugin_of (c_plugins c)) (fun _ => Ok tt) [] (fun r => Ok r)
                                (c_par_app c) (c_par_run c) (c_persist c) user)).
 
 (* Yen's algorithm cases (known finding K_yens_k_ge_2): the search of the single query is the
@@ -89,7 +106,7 @@ Definition yens_search (k0 : nat) (first : list route) (fuel : nat) : json -> re
   | OutOfFuel => OutOfFuel
   end.
 Definition line_M_yens (id : Z) (c : cfg) (k0 : nat) (first : list route) (user : json) : string :=
-  line "M" id (show_outcome (run_user unit (map plugin_of (c_plugins c)) (yens_search k0 first 64) []
+  line "M" id (show_outcome (run_user fw unit (map plugin_of (c_plugins c)) (yens_search k0 first 64) []
                                (fun r => Ok r) (c_par_app c) (c_par_run c) (c_persist c) user)).
 
 (* ---- the property as a checker on the implementation's observed outcome *)
@@ -101,8 +118,6 @@ Definition show_observed (o : observed) : string :=
 
 Definition tag_of (q : json) : option string :=
   match jget q "tag" with Some (JStr s) => Some s | _ => None end.
-(* the queries a batch element stands for: itself, or (an array offered as a query) its elements *)
-Definition leaves (q : json) : list json := match q with JArr l => q :: l | _ => [q] end.
 (* does response request [r] echo query [q]: same tag for tagged objects, equal value otherwise *)
 Definition echoes (q r : json) : bool :=
   match tag_of q with
@@ -126,9 +141,9 @@ Definition check_responses (s : spec) (qs : list json) (rs : list (string * json
   let reqs := map snd rs in
   if negb (forallb (fun p => String.eqb (fst p) "ok" || String.eqb (fst p) "err") rs)
   then Some "a response is not {request, ...}"
-  else if negb (forallb (fun r => existsb (fun q => existsb (fun l => echoes l r) (leaves q)) qs) reqs)
+  else if negb (forallb (fun r => existsb (fun q => echoes q r) qs) reqs)
   then Some "a response echoes no query of the batch"
-  else if negb (forallb (fun q => existsb (fun r => existsb (fun l => echoes l r) (leaves q)) reqs) qs)
+  else if negb (forallb (fun q => existsb (fun r => echoes q r) reqs) qs)
   then Some "a query of the batch has no response"
   else if negb (forallb (fun q =>
                   let mine := filter (fun p => echoes q (snd p)) rs in
@@ -137,12 +152,12 @@ Definition check_responses (s : spec) (qs : list json) (rs : list (string * json
                   | Some _ =>
                       let g := if s_grid s then grid_size q else 1 in
                       Nat.eqb n g || (Nat.eqb n 1 && forallb (fun p => String.eqb (fst p) "err") mine)
-                  | None => is_arr q || Nat.eqb n (count (json_eqb q) qs)
+                  | None => Nat.eqb n (count (json_eqb q) qs)
                   end) qs)
   then Some "wrong number of responses for a query"
   else if negb (forallb (fun p => match tag_of (snd p) with
                                   | Some t => negb (existsb (String.eqb t) (s_must_err s)) || String.eqb (fst p) "err"
-                                  | None => true
+                                  | None => is_obj (snd p) || String.eqb (fst p) "err"
                                   end) rs)
   then Some "a malformed query was answered without an error"
   else None.
